@@ -28,6 +28,7 @@ var Quirks = []Quirk{
 	{ID: "C01-path-param-named-p", Detect: hasPathParamNamedP, SigAny: []string{"client/encode_decode: cannot use"}},
 	{ID: "C01-collection-of-result-type-with-inline-object", Detect: hasCollectionOfInlineObject, SigAny: []string{"struct{…}"}},
 	{ID: "C01-recursive-result-type-nested-view", Detect: hasRecursiveNestedView, SigAny: []string{"server/encode_decode: cannot use"}},
+	{ID: "C01-gen-hangs-recursive-type-with-union", Detect: hasRecursiveTypeWithUnion, SigAny: []string{"timeout"}},
 	{ID: "C01-two-schemes-same-type", Detect: hasTwoSchemesSameType, SigAny: []string{"redeclared", "duplicate method"}},
 	{ID: "C01-body-fields-user-type", Detect: hasBodyFieldsUserType, SigAny: []string{"client/types: cannot use _ (variable of type *struct{…}"}},
 	{ID: "C01-body-fields-inline-required", Detect: hasBodyFieldsInlineRequired, SigAny: []string{"== nil (mismatched types", "cannot indirect"}},
@@ -369,6 +370,36 @@ func hasRecursiveNestedView(d *m.Design) bool {
 					return true
 				}
 			}
+		}
+	}
+	return false
+}
+
+func hasUnion(a *m.Attr) bool {
+	if a == nil || a.Type == nil {
+		return false
+	}
+	switch a.Type.Kind {
+	case m.Union:
+		return true
+	case m.Array:
+		return hasUnion(a.Type.Elem)
+	case m.Map:
+		return hasUnion(a.Type.Val)
+	case m.Object:
+		for _, f := range a.Type.Fields {
+			if hasUnion(f.Attr) {
+				return true
+			}
+		}
+	}
+	return false
+}
+
+func hasRecursiveTypeWithUnion(d *m.Design) bool {
+	for _, t := range d.Types {
+		if t.Attr != nil && refsType(t.Attr.Type, t.Name) && hasUnion(t.Attr) {
+			return true
 		}
 	}
 	return false
